@@ -215,24 +215,33 @@ func indexOf(l []string, s string) int {
 
 var c04Seq int64
 
-// c04Judge writes the tree, runs the real prepare stage over it and compares with the model.
-func c04Judge(tr C04Tree) (problems []string, applied map[string]int, err error) {
+// writeSourceTree writes a generated source tree into a fresh scratch directory.
+func writeSourceTree(files map[string]string) (string, error) {
 	n := atomic.AddInt64(&c04Seq, 1)
 	src := filepath.Join(refScratch(), fmt.Sprintf("c04src-%d-%d", os.Getpid(), n))
-	defer os.RemoveAll(src)
 	var rels []string
-	for rel := range tr.Files {
+	for rel := range files {
 		rels = append(rels, rel)
 	}
 	sort.Strings(rels)
 	for _, rel := range rels {
 		p := filepath.Join(src, rel)
 		if err := os.MkdirAll(filepath.Dir(p), 0o755); err != nil {
-			return nil, nil, err
+			return src, err
 		}
-		if err := os.WriteFile(p, []byte(tr.Files[rel]), 0o644); err != nil {
-			return nil, nil, err
+		if err := os.WriteFile(p, []byte(files[rel]), 0o644); err != nil {
+			return src, err
 		}
+	}
+	return src, nil
+}
+
+// c04Judge writes the tree, runs the real prepare stage over it and compares with the model.
+func c04Judge(tr C04Tree) (problems []string, applied map[string]int, err error) {
+	src, err := writeSourceTree(tr.Files)
+	defer os.RemoveAll(src)
+	if err != nil {
+		return nil, nil, err
 	}
 	m, err := modelPrepare(src, tr.Cfg)
 	if err != nil {
